@@ -10,6 +10,8 @@ import RuxModel.Lemmas.Path
   Clause of the statement                         theorem(s)
   ------------------------------------------------------------------------------------------------
   normalisation is total (never panics)           C11_total, C11_total_register, C11_total_match
+                                                  (`simpleFmtPath` has no partial operation at all: TrimSpace,
+                                                  a test for "", TrimLeft — it is a total function by type)
   registration and lookup normalise alike         C11_agree (NewRoute's simpleFmtPath + formatPath at
                                                   registration = formatPath at lookup)
   surrounding white space is ignored              C11_ws (any runs of white-space runes on both sides),
@@ -162,6 +164,8 @@ theorem C11_slashes (st : Bool) (k : Nat) (P : Bytes) :
     formatPath st (List.replicate (k + 1) slash ++ P) = formatPath st (slash :: P) := by
   rw [formatPath_eq, formatPath_eq, final_replicate_slash]
 
+example : spaceAtHead [0x61, 0x20] = 0 := by decide      -- the hypothesis of C11_leading is satisfiable
+example : formatPath true [0x61, 0x20] = formatPath true [slash, 0x61, 0x20] := by decide
 example : formatPath true [slash, slash, slash, 0x78] = .ok [slash, 0x78] := by decide
 -- only LEADING slashes are merged
 example : formatPath false [slash, 0x78, slash, slash, 0x79] = .ok [slash, 0x78, slash, slash, 0x79] := by decide
@@ -351,6 +355,7 @@ theorem C11_reach (st enc : Bool) (m P : Bytes) (id : Nat) (hm : slash ∉ m) (m
     · exact Or.inr rfl
     · exact Or.inl rfl
 
+example : slash ∉ ([0x47, 0x45, 0x54] : Bytes) := by decide   -- "GET" meets the hypothesis on methods
 -- non-vacuity: GET "about/" is found by " /about", not by "/about/x"
 example : ∃ r' s, ({} : Router).addStatic [0x47] [0x61, slash] 7 = .ok (r', s) ∧
     r'.matchStatic [0x47] [0x20, slash, 0x61] = .ok (some 7) ∧
